@@ -261,9 +261,29 @@ func pad32(b []byte) []byte {
 	return r
 }
 
+// rand32: a non-zero 32-byte word.  One in four is sparse -- non-zero only in the high 12 bytes, only in the
+// low 20, only in the first, the last or one random byte -- because every 32-byte field of the protocol is somewhere
+// truncated to an address, compared with zero or sliced.
 func (g *Gen) rand32() []byte {
 	b := make([]byte, 32)
-	g.rng.Read(b)
+	if !g.chance(0.25) {
+		g.rng.Read(b)
+		return b
+	}
+	switch g.pick(5) {
+	case 0:
+		g.rng.Read(b[:12])
+		b[g.pick(12)] |= 1
+	case 1:
+		g.rng.Read(b[12:])
+		b[12+g.pick(20)] |= 1
+	case 2:
+		b[0] = byte(1 + g.pick(255))
+	case 3:
+		b[31] = byte(1 + g.pick(255))
+	default:
+		b[g.pick(32)] = byte(1 + g.pick(255))
+	}
 	return b
 }
 
@@ -329,32 +349,34 @@ func messengerAddr(domain uint32) []byte {
 	return b
 }
 
-func (g *Gen) weirdAddress() string {
+// weirdAddresses: one representative of every way a string can fail (or barely pass) as an account address.
+func (g *Gen) weirdAddresses() []string {
 	raw := g.acctRaw[g.pick(len(g.acctRaw))]
-	switch g.pick(9) {
-	case 0:
-		return ""
-	case 1:
-		return "   "
-	case 2:
-		return strings.ToUpper(g.acct[g.pick(len(g.acct))])
-	case 3:
-		s, _ := bech32.ConvertAndEncode("cosmos", raw)
+	a := g.acct[g.pick(len(g.acct))]
+	enc := func(prefix string, b []byte) string {
+		s, _ := bech32.ConvertAndEncode(prefix, b)
 		return s
-	case 4:
-		s := g.acct[g.pick(len(g.acct))]
-		return s[:len(s)-1] + map[bool]string{true: "q", false: "p"}[s[len(s)-1] != 'q']
-	case 5:
-		s, _ := bech32.ConvertAndEncode(bech32Prefix, g.rand32())
-		return s
-	case 6:
-		s, _ := bech32.ConvertAndEncode(bech32Prefix, []byte{7})
-		return s
-	case 7:
-		return "noble1"
-	default:
-		return types.ModuleAddress.String()
 	}
+	return []string{
+		"", "   ",
+		strings.ToUpper(a),      // all upper case: valid bech32, same account
+		enc("cosmos", raw),      // checksum-correct, foreign prefix
+		enc("nobl", raw),        // checksum-correct, prefix of the prefix
+		a[:len(a)-1] + map[bool]string{true: "q", false: "p"}[a[len(a)-1] != 'q'], // bad checksum
+		enc(bech32Prefix, g.rand32()),             // 32-byte payload: valid
+		enc(bech32Prefix, []byte{7}),              // 1-byte payload: valid
+		enc(bech32Prefix, []byte{}),               // empty payload, correct checksum
+		enc(bech32Prefix, g.randBytes(255)),       // longest valid payload
+		enc(bech32Prefix, g.randBytes(256)),       // one byte too long
+		bech32Prefix + "1",
+		a[:8] + strings.ToUpper(a[8:]),            // mixed case
+		types.ModuleAddress.String(),
+	}
+}
+
+func (g *Gen) weirdAddress() string {
+	w := g.weirdAddresses()
+	return w[g.pick(len(w))]
 }
 
 var amountPool = []string{"-", "-1", "0", "1", "2", "1000", "18446744073709551615", "18446744073709551616",
